@@ -101,6 +101,7 @@ type SConn struct {
 	readerGone atomic.Bool
 	hsErr      error
 	wmu        sync.Mutex
+	wrote      []Wrote
 }
 
 // Env owns the client under test and every connection it dials.
@@ -223,9 +224,30 @@ func (e *Env) Conn(i int) *SConn {
 
 // ---- writing ----------------------------------------------------------------
 
+// Wrote is one frame header this side has written.
+type Wrote struct {
+	Type, Flags byte
+	Stream      uint32
+	Len         int
+}
+
+func (c *SConn) WroteLog() []Wrote {
+	c.wmu.Lock()
+	defer c.wmu.Unlock()
+	return append([]Wrote(nil), c.wrote...)
+}
+
 func (c *SConn) Write(b []byte) error {
 	c.wmu.Lock()
 	defer c.wmu.Unlock()
+	for rest := b; len(rest) >= 9 && len(c.wrote) < 4000; {
+		h, _ := rawframe.ParseHeader(rest)
+		c.wrote = append(c.wrote, Wrote{h.Type, h.Flags, h.Stream, h.Length})
+		if len(rest) < 9+h.Length {
+			break
+		}
+		rest = rest[9+h.Length:]
+	}
 	_, err := c.TLS.Write(b)
 	return err
 }
@@ -623,8 +645,8 @@ func (e *Env) Do(r ReqSpec) *Call {
 			call.Body = append([]byte(nil), res.Body()...)
 		}
 		call.Returns.Add(1)
-		e.returned.Add(1)
 		close(call.Done)
+		e.returned.Add(1) // last: quiescence counts a call as returned only once its result is visible
 	}()
 	return call
 }
